@@ -13,8 +13,8 @@ import (
 	"github.com/google/gce-tcb-verifier/eventlog"
 	oabi "github.com/google/gce-tcb-verifier/ovmf/abi"
 	opb "github.com/google/gce-tcb-verifier/proto/ovmf"
-	"github.com/google/gce-tcb-verifier/sev"
 	spb "github.com/google/gce-tcb-verifier/proto/sev"
+	"github.com/google/gce-tcb-verifier/sev"
 	"github.com/google/uuid"
 	"google.golang.org/protobuf/reflect/protoreflect"
 
@@ -593,6 +593,62 @@ func checkTCG(run *vk.Run, e *Exported, r *rand.Rand) {
 			}
 		}
 		run.Case(fmt.Sprintf("sp800155:%d", k), true)
+	}
+	// C strings: every payload row of Abi.tla's PartRows (acceptance, value, both round trips), alone
+	// and as the PlatformModel of a whole event
+	toBytes := func(v []int) []byte {
+		b := make([]byte, len(v))
+		for i, x := range v {
+			b[i] = byte(x)
+		}
+		return b
+	}
+	nRows := 0
+	for _, row := range e.Parts {
+		if row.Part != "cstr1" {
+			continue
+		}
+		nRows++
+		payload, value := toBytes(row.Payload), toBytes(row.Value)
+		in := append([]byte{byte(len(payload))}, payload...)
+		c := &eventlog.ByteSizedCStr{}
+		_, derr := safe(func() (int, error) { return 0, c.Unmarshal(bytes.NewReader(in)) })
+		switch {
+		case derr == nil && !row.Accept:
+			viol("strictness:cstr", "malformed sized C string %v accepted as %q", in, c.Data)
+		case derr == nil:
+			if c.Data != string(value) {
+				viol("roundtrip:cstr", "sized C string %v decodes to %q, the grammar's value is %q", in, c.Data, value)
+			}
+			var w bytes.Buffer
+			if err := c.Marshal(&w); err != nil || !bytes.Equal(w.Bytes(), in) {
+				viol("roundtrip:cstr", "accepted sized C string %v re-encodes to %v (%v)", in, w.Bytes(), err)
+			}
+		case row.Accept:
+			viol("roundtrip:cstr", "sized C string %v (value %q, the encoding of that value) is refused: %v", in, value, derr)
+		}
+		if row.Accept {
+			var w bytes.Buffer
+			v := &eventlog.ByteSizedCStr{Data: string(value)}
+			if err := v.Marshal(&w); err != nil || !bytes.Equal(w.Bytes(), in) {
+				viol("layout:cstr", "value %q encodes to %v (%v), the grammar says %v", value, w.Bytes(), err, in)
+			}
+			// inside a whole event
+			ev := &eventlog.SP800155Event3{PlatformManufacturerStr: eventlog.ByteSizedCStr{Data: "G"}, PlatformModel: eventlog.ByteSizedCStr{Data: string(value)},
+				FirmwareManufacturerStr: eventlog.ByteSizedCStr{Data: "fw"}, RIMLocator: eventlog.Uint32SizedArray{Data: []byte{1, 2, 3}}}
+			if enc, err := ev.MarshalToBytes(); err == nil {
+				if back, err := decode3(enc[16:]); err != nil {
+					viol("roundtrip:cstr", "an event whose PlatformModel is %q does not decode its own encoding: %v", value, err)
+				} else if re, _ := back.MarshalToBytes(); !bytes.Equal(re, enc) || back.PlatformModel.Data != string(value) {
+					viol("roundtrip:cstr", "an event whose PlatformModel is %q decodes to %q and re-encodes to %d bytes instead of %d", value, back.PlatformModel.Data, len(re), len(enc))
+				}
+			}
+		}
+		run.Case(fmt.Sprintf("cstr:%v", row.Payload), true)
+	}
+	if nRows < 100 {
+		run.Infra(fmt.Errorf("Abi.tla emitted only %d cstr1 rows", nRows))
+		return
 	}
 	// C strings: missing terminator / length byte larger than what is present
 	for _, bad := range [][]byte{{3, 'a', 'b', 'c'}, {0}, {5, 'a', 0}} {
